@@ -62,6 +62,13 @@ def lifecycle_cfg(ctx, overrides, sim=False):
                 in_consts = False
     lines = ["SPECIFICATION TSpec", "CONSTANTS"]
     for name, t in consts:
+        if overrides.get(name) == "<first>":
+            # keep only the first choice C06 lists (its "nothing special" value), whatever its type is today
+            val = t.split("=", 1)[1].strip() if "=" in t and "<-" not in t else None
+            if val and val.startswith("{") and "," in val:
+                t = "%s = %s}" % (name, val.split(",")[0])
+            lines.append("  " + t)
+            continue
         lines.append("  " + ("%s = %s" % (name, overrides[name]) if name in overrides else t))
     if sim:
         lines += ["INVARIANTS", "  Bounded", "  RestartsCounted", "  ProgressBound", "  EmitEndInv", "CHECK_DEADLOCK FALSE"]
@@ -149,7 +156,7 @@ def run(ctx):
         ("initerr", dict(common, cfg="Total_initerr.cfg", tag="initerr")),
         ("director", dict(common, cfg="Total_director.cfg", tag="director")),
         ("lifecycle", dict(module="LifecycleTotal", cfg="LifecycleTotal.cfg", workers=2, timeout=1500, tag="lifecycle",
-                           extra_files=[lifecycle_cfg(ctx, dict({"Urls": '{"a"}', "JailChoices": "{FALSE}", "MaxRestarts": "3"},
+                           extra_files=[lifecycle_cfg(ctx, dict({"Urls": '{"a"}', "JailChoices": "<first>", "MaxRestarts": "3"},
                                                               **({"MaxReq": "2", "KCover": "2", "Statuses": "{200}"} if quick else
                                                                  {"MaxReq": "3", "KCover": "3", "Statuses": "{200, 500}"})))])),
     ]
@@ -159,7 +166,7 @@ def run(ctx):
         jobs.append(("walk%d" % k, dict(module="EvalGen", cfg="EvalSim.cfg", workers=1, simulate=(150 if quick else 4000), depth=90,
                                         timeout=2400, seed=ctx.seed * 1000 + 500 + k, tag="walk")))
     # seeded walks of the hostile lifecycle machine (longer histories than the k-switch cover reaches)
-    simcfg = lifecycle_cfg(ctx, {"Urls": '{"a", "b"}', "JailChoices": "{FALSE}", "MaxRestarts": "3", "MaxReq": "3", "KCover": "0",
+    simcfg = lifecycle_cfg(ctx, {"Urls": '{"a", "b"}', "JailChoices": "<first>", "MaxRestarts": "3", "MaxReq": "3", "KCover": "0",
                                  "Statuses": "{200, 500}"}, sim=True)
     jobs.append(("lifewalk", dict(module="LifecycleTotal", cfg="LifecycleTotalSim.cfg", workers=1, simulate=(300 if quick else 6000), depth=120,
                                   timeout=1500, extra_files=[simcfg], tag="lifecycle-walk")))
